@@ -53,7 +53,18 @@ fn op_str(op: &Op) -> String {
 
 #[test]
 fn vxw_c19_rolling_logger() {
-    let name = "vxlog";
+    // the production loggers are configured with mixed-case names ("ProxyAgent.log", "ProxyAgent.Connection.log"): the bound on
+    // files must not depend on the letter case of the configured name
+    rolling_logger_cases("vxlog");
+    rolling_logger_cases("VxAgent.Connection.log");
+}
+
+/// the file the logger appends to: the configured name with the extension "log" (production names already end in ".log")
+fn cur_file(name: &str) -> String {
+    if name.ends_with(".log") { name.to_string() } else { format!("{}.log", name) }
+}
+
+fn rolling_logger_cases(name: &str) {
     let patterns: Vec<(&str, Vec<Op>)> = vec![
         ("small", vec![Op::Many(9), Op::Line(5), Op::Many(9), Op::Many(9), Op::Restart, Op::Many(9), Op::Line(5), Op::Many(9), Op::Many(9), Op::Many(9), Op::Restart, Op::Many(9), Op::Many(9)]),
         ("huge", vec![Op::Many(400), Op::Line(400), Op::Restart, Op::Many(400), Op::Many3(200), Op::Many(400), Op::Restart, Op::Line(400), Op::Many(400), Op::Many(400), Op::Many(400)]),
@@ -79,7 +90,7 @@ fn vxw_c19_rolling_logger() {
                             fs::write(f, vec![b'a'; (max_size as usize).min(64)]).unwrap();
                         }
                         if let Some(sz) = cur {
-                            fs::write(dir.join(format!("{}.log", name)), vec![b'c'; sz as usize]).unwrap();
+                            fs::write(dir.join(cur_file(name)), vec![b'c'; sz as usize]).unwrap();
                         }
                         let mut logger = RollingLogger::create_new(dir.clone(), name.to_string(), max_size, max_count);
                         let mut history: Vec<String> = Vec::new();
@@ -87,7 +98,7 @@ fn vxw_c19_rolling_logger() {
                         for op in ops.iter() {
                             history.push(op_str(op));
                             let before = listing(&dir);
-                            let old_current = before.get(&format!("{}.log", name)).copied();
+                            let old_current = before.get(&cur_file(name)).copied();
                             let w: u64 = match op {
                                 Op::Many(s) => {
                                     let _ = logger.write_many(vec!["m".repeat(*s)]);
@@ -107,7 +118,7 @@ fn vxw_c19_rolling_logger() {
                                 }
                             };
                             let after = listing(&dir);
-                            let rolled = after.keys().any(|f| !before.contains_key(f) && *f != format!("{}.log", name));
+                            let rolled = after.keys().any(|f| !before.contains_key(f) && *f != cur_file(name));
                             let mut problem: Option<String> = None;
                             // count bound
                             // (a start that no earlier run with the same settings can leave - above the count, or at the count with
@@ -299,7 +310,7 @@ fn block_works(how: Block) -> bool {
 #[test]
 fn vxw_c19_rolling_logger_archive_fails() {
     let name = "vxlog";
-    let cur_name = format!("{}.log", name);
+    let cur_name = cur_file(name);
     // 40 and 44 writes; sizes 2..400 bytes through both entry points, one restart each
     let cycle_a = [Op::Many(9), Op::Line(5), Op::Many3(30), Op::Many(120), Op::Line(90), Op::Many(1), Op::Many(60), Op::Line(1)];
     let cycle_b = [Op::Many(400), Op::Line(400), Op::Many3(200), Op::Many(7), Op::Many(250), Op::Line(64), Op::Many(40), Op::Many(1), Op::Line(200), Op::Many3(1), Op::Many(33)];
